@@ -270,6 +270,9 @@ impl<S: BuildHasher + Default + Clone + Send + Sync + 'static> ConcurrentSet
                     drop(vec);
                     drop(read);
 
+                    #[cfg(feature = "verif")]
+                    qbice_storage::verif::thread_point("bes_upgrade_window");
+
                     *self.0.write() = TieredStorage::Large(large_set);
 
                     result
